@@ -42,6 +42,7 @@ import Mathlib.Tactic.NormNum
 import Mathlib.Tactic.Ring
 import Mathlib.Tactic.Linarith
 import Mathlib.Tactic.Positivity
+import Mathlib.Tactic.FieldSimp
 set_option linter.unusedSectionVars false
 set_option linter.unusedSimpArgs false
 namespace TaRs.Round.MFI
@@ -359,7 +360,8 @@ theorem step {n : Nat} {M : K} {s : MoneyFlowIndex (R K)} {p : K} {fl_ : List K}
     (i : Inv n M s p fl_) (hh : ∀ a ∈ fl_, |a| ≤ M) (b : Bar (R K))
     (hr0 : 0 ≤ rawR b) (hrM : rawR b ≤ M)
     (hu : ((fl_.length + 1 : Nat) : K) * u ≤ 1 / 8) :
-    ∃ s' y, s.nextBar b = some (s', y) ∧ Inv n M s' (tpR b) (fl_ ++ [flowR p (tpR b) (rawR b)]) := by
+    ∃ s' y, s.nextBar b = some (s', y) ∧ Inv n M s' (tpR b) (fl_ ++ [flowR p (tpR b) (rawR b)]) ∧
+      y = out s'.total_positive_money_flow s'.total_negative_money_flow := by
   obtain ⟨c', hr⟩ := i.ring
   have hn := hr.npos
   have hj := hr.idx_lt
@@ -395,7 +397,7 @@ theorem step {n : Nat} {M : K} {s : MoneyFlowIndex (R K)} {p : K} {fl_ : List K}
     rcases hevx with h | ⟨_, h1, h2⟩
     · exact h
     · rw [h1, h2]
-  refine ⟨_, _, next_eq _ b (R.mk (evK pd fl_)) hwf (by simp only; omega) (by simpa [cursor] using hev), ?_⟩
+  refine ⟨_, _, next_eq _ b (R.mk (evK pd fl_)) hwf (by simp only; omega) (by simpa [cursor] using hev), ?_, rfl⟩
   have e : (stored (R.mk p) (typical b) b.volume : R K) = R.mk (flowR p (tpR b) (rawR b)) := by
     unfold stored flowR tpR rawR
     have hlt : ∀ a c : R K, Scalar.lt a c = decide (a.v < c.v) := fun _ _ => rfl
@@ -473,7 +475,7 @@ theorem run_from (n : Nat) (M : K) (bs : List (Bar (R K)))
     have hu1 : ((fl_.length + 1 : Nat) : K) * u ≤ 1 / 8 := by
       refine le_trans (mul_le_mul_of_nonneg_right ?_ hu0) hu
       exact_mod_cast (by simp : fl_.length + 1 ≤ fl_.length + (y :: ys).length)
-    obtain ⟨s1, o1, e1, i1⟩ := step i hh y hy.1 hy.2 hu1
+    obtain ⟨s1, o1, e1, i1, _⟩ := step i hh y hy.1 hy.2 hu1
     have hh1 : ∀ a ∈ fl_ ++ [flowR p (tpR y) (rawR y)], |a| ≤ M := by
       intro a ha
       rcases List.mem_append.mp ha with ha | ha
@@ -543,5 +545,219 @@ theorem ratio_err (P N SP SN E : K) (hSP : 0 ≤ SP) (hSN : 0 ≤ SN)
   calc |(P - SP) * SN - SP * (N - SN)| * (SP + SN) ≤ E * (SP + SN) * (SP + SN) :=
         mul_le_mul_of_nonneg_right h1 (le_of_lt hpos)
     _ ≤ 2 * E * ((P + N) * (SP + SN)) := h2
+
+
+/-! ## The reading: the last three roundings of the output formula -/
+
+/-- relative error: `x'` approximates `x` within `ε·|x|` -/
+def Rel (x' x ε : K) : Prop := |x' - x| ≤ ε * |x|
+
+theorem rel_fl (x : K) : Rel (fl x) x u := fl_err x
+
+theorem Rel.mono {x' x a b : K} (h : Rel x' x a) (hab : a ≤ b) : Rel x' x b :=
+  le_trans h (mul_le_mul_of_nonneg_right hab (abs_nonneg _))
+
+/-- chaining two relative errors -/
+theorem Rel.trans {z y x a b : K} (h1 : Rel z y a) (h2 : Rel y x b) (ha : 0 ≤ a) :
+    Rel z x (a + b + a * b) := by
+  unfold Rel at *
+  have hy : |y| ≤ |x| + b * |x| := by
+    have := abs_add_le (y - x) x
+    rw [sub_add_cancel] at this
+    linarith
+  have e : z - x = (z - y) + (y - x) := by ring
+  rw [e]
+  have := abs_add_le (z - y) (y - x)
+  have h3 : a * |y| ≤ a * (|x| + b * |x|) := mul_le_mul_of_nonneg_left hy ha
+  nlinarith
+
+/-- product of two approximations -/
+theorem Rel.mul {x' x y' y a b : K} (h1 : Rel x' x a) (h2 : Rel y' y b) :
+    Rel (x' * y') (x * y) (a + b + a * b) := by
+  unfold Rel at *
+  have e : x' * y' - x * y = (x' - x) * y + x * (y' - y) + (x' - x) * (y' - y) := by ring
+  rw [e, abs_mul x y]
+  have t1 := abs_add_le ((x' - x) * y + x * (y' - y)) ((x' - x) * (y' - y))
+  have t2 := abs_add_le ((x' - x) * y) (x * (y' - y))
+  simp only [abs_mul] at t1 t2
+  have p1 : |x' - x| * |y| ≤ a * |x| * |y| := mul_le_mul_of_nonneg_right h1 (abs_nonneg _)
+  have p2 : |x| * |y' - y| ≤ |x| * (b * |y|) := mul_le_mul_of_nonneg_left h2 (abs_nonneg _)
+  have p3 : |x' - x| * |y' - y| ≤ (a * |x|) * (b * |y|) :=
+    mul_le_mul h1 h2 (abs_nonneg _) (le_trans (abs_nonneg _) h1)
+  nlinarith
+
+/-- a perturbed DENOMINATOR: `P/d` against `P/s` when `d` is within `a·|s|` of `s`, `a ≤ 1/2` -/
+theorem Rel.div_den {d s a : K} (P : K) (h : Rel d s a) (ha : 0 ≤ a) (ha2 : a ≤ 1 / 2) (hs : s ≠ 0) :
+    Rel (P / d) (P / s) (2 * a) := by
+  unfold Rel at *
+  have hs0 : 0 < |s| := abs_pos.mpr hs
+  have hd : |s| / 2 ≤ |d| := by
+    have := abs_sub_abs_le_abs_sub s d
+    rw [abs_sub_comm] at this
+    nlinarith
+  have hd0 : 0 < |d| := by linarith
+  have hdne : d ≠ 0 := abs_pos.mp hd0
+  have e : P / d - P / s = P * (s - d) / (d * s) := by
+    rw [div_sub_div _ _ hdne hs]; congr 1; ring
+  rw [e, abs_div, abs_mul, abs_mul, abs_div, abs_sub_comm s d,
+    div_le_iff₀ (mul_pos hd0 hs0)]
+  have h1 : |P| * |d - s| ≤ |P| * (a * |s|) := mul_le_mul_of_nonneg_left h (abs_nonneg _)
+  have h2 : 2 * a * (|P| / |s|) * (|d| * |s|) = 2 * a * |P| * |d| := by
+    field_simp
+  rw [h2]
+  have h3 : |P| * (a * |s|) ≤ 2 * a * |P| * |d| := by
+    have : 0 ≤ a * |P| := mul_nonneg ha (abs_nonneg _)
+    nlinarith
+  linarith
+
+/-- **the reading**: the value the indicator returns on the ratio branch,
+    `fl (fl (P / fl (P + N)) · fl 100)`, against the exact `100·S_P/(S_P+S_N)` when both totals are
+    within `E` of the exact non-negative sums, the window's total flow is at least `4E` and
+    `u ≤ 1/64`: the error is `100·(2E/D + 12u)` — accumulated drift relative to the window's total
+    flow, plus a few ulps -/
+theorem reading_err (P N SP SN E : K) (hSP : 0 ≤ SP) (hSN : 0 ≤ SN)
+    (hP : |P - SP| ≤ E) (hN : |N - SN| ≤ E) (hD : 4 * E ≤ SP + SN) (hpos : 0 < SP + SN)
+    (hu64 : (u : K) ≤ 1 / 64) :
+    |fl (fl (P / fl (P + N)) * fl 100) - SP / (SP + SN) * 100| ≤ 100 * (2 * E / (SP + SN) + 12 * u) := by
+  have hu : (0 : K) ≤ u := u_nonneg
+  have hE : 0 ≤ E := le_trans (abs_nonneg _) hP
+  have hP' := abs_le.mp hP
+  have hN' := abs_le.mp hN
+  have hs0 : 0 < P + N := by linarith [hP'.1, hN'.1]
+  have huu : (u : K) * u ≤ u * (1 / 64) := mul_le_mul_of_nonneg_left hu64 hu
+  -- the chain of relative errors against r·100, r = P/(P+N)
+  have r1 : Rel (fl (P + N)) (P + N) u := rel_fl _
+  have r2 : Rel (P / fl (P + N)) (P / (P + N)) (2 * u) :=
+    Rel.div_den P r1 hu (by linarith) (ne_of_gt hs0)
+  have r3 : Rel (fl (P / fl (P + N))) (P / (P + N)) (4 * u) :=
+    ((rel_fl _).trans r2 hu).mono (by nlinarith)
+  have r4 : Rel (fl (P / fl (P + N)) * fl 100) (P / (P + N) * 100) (6 * u) :=
+    (r3.mul (rel_fl (100 : K))).mono (by nlinarith)
+  have r5 : Rel (fl (fl (P / fl (P + N)) * fl 100)) (P / (P + N) * 100) (8 * u) :=
+    ((rel_fl _).trans r4 hu).mono (by nlinarith)
+  -- r is within 2E/D of the exact ratio, hence at most 3/2 in magnitude
+  have hr := ratio_err P N SP SN E hSP hSN hP hN hD hpos
+  have hq0 : SP / (SP + SN) ≤ 1 := by rw [div_le_one hpos]; linarith
+  have hq00 : 0 ≤ SP / (SP + SN) := div_nonneg hSP (le_of_lt hpos)
+  have hED : 2 * E / (SP + SN) ≤ 1 / 2 := by
+    rw [div_le_iff₀ hpos]; linarith
+  have hrabs : |P / (P + N)| ≤ 3 / 2 := by
+    have := abs_add_le (P / (P + N) - SP / (SP + SN)) (SP / (SP + SN))
+    rw [sub_add_cancel, abs_of_nonneg hq00] at this
+    linarith
+  unfold Rel at r5
+  rw [abs_mul, abs_of_nonneg (by norm_num : (0 : K) ≤ 100)] at r5
+  have e : fl (fl (P / fl (P + N)) * fl 100) - SP / (SP + SN) * 100
+      = (fl (fl (P / fl (P + N)) * fl 100) - P / (P + N) * 100)
+        + (P / (P + N) - SP / (SP + SN)) * 100 := by ring
+  rw [e]
+  have t := abs_add_le (fl (fl (P / fl (P + N)) * fl 100) - P / (P + N) * 100)
+    ((P / (P + N) - SP / (SP + SN)) * 100)
+  rw [abs_mul (P / (P + N) - SP / (SP + SN)), abs_of_nonneg (by norm_num : (0 : K) ≤ 100)] at t
+  have h8 : 8 * u * (|P / (P + N)| * 100) ≤ 8 * u * (3 / 2 * 100) :=
+    mul_le_mul_of_nonneg_left (by linarith) (by linarith)
+  nlinarith
+
+/-- the generated output formula on the ratio branch is exactly that expression -/
+theorem out_v (P N : R K) (hne : ¬ (fl (P.v + N.v) = 0)) :
+    (out P N).v = fl (fl (P.v / fl (P.v + N.v)) * fl ((100 : K) / 10 ^ 0)) := by
+  unfold out
+  have hb : Scalar.beq (Scalar.add P N) (Scalar.lit 0 0 : R K) = false := by
+    rw [R.lit_zero]
+    show decide (fl (P.v + N.v) = 0) = false
+    simp [hne]
+  rw [hb]
+  rfl
+
+
+/-- **MFI reading theorem** (standard model; generated code): the output after a stream
+    `b0 :: bs ++ [bl]` (`t = |bs| + 1` flows), whenever the window's exact total flow `D` is at
+    least `4E`, `E = 3·t·min(t,n)·u·M` the bound on the accumulated error of the totals: the ratio
+    branch is taken and the returned value is within `100·(2E/D + 12u)` of
+    `100·S_P/(S_P+S_N)` over exactly the last `min(t,n)` signed computed flows. -/
+theorem mfi_reading_rounding (n : Nat) (hn : 0 < n) (h8 : n * 8 ≤ isizeMax) (M : K)
+    (b0 : Bar (R K)) (bs : List (Bar (R K))) (bl : Bar (R K))
+    (hb : ∀ b ∈ bs ++ [bl], 0 ≤ rawR b ∧ rawR b ≤ M)
+    (ht : (((bs ++ [bl]).length : Nat) : K) * u ≤ 1 / 8) (hu64 : (u : K) ≤ 1 / 64)
+    (hD : 4 * (3 * ((bs ++ [bl]).length : K) * ((min (bs ++ [bl]).length n : Nat) : K) * u * M)
+        ≤ (lastN n ((flows (b0 :: (bs ++ [bl]))).map pp)).sum
+          + (lastN n ((flows (b0 :: (bs ++ [bl]))).map np)).sum)
+    (hpos : 0 < (lastN n ((flows (b0 :: (bs ++ [bl]))).map pp)).sum
+          + (lastN n ((flows (b0 :: (bs ++ [bl]))).map np)).sum) :
+    ∃ s2 outs y, runOut nextBar (fresh n : MoneyFlowIndex (R K)) (b0 :: (bs ++ [bl])) = some (s2, outs ++ [y]) ∧
+      |y.v - (lastN n ((flows (b0 :: (bs ++ [bl]))).map pp)).sum
+              / ((lastN n ((flows (b0 :: (bs ++ [bl]))).map pp)).sum
+                  + (lastN n ((flows (b0 :: (bs ++ [bl]))).map np)).sum) * 100|
+        ≤ 100 * (2 * (3 * ((bs ++ [bl]).length : K) * ((min (bs ++ [bl]).length n : Nat) : K) * u * M)
+                  / ((lastN n ((flows (b0 :: (bs ++ [bl]))).map pp)).sum
+                      + (lastN n ((flows (b0 :: (bs ++ [bl]))).map np)).sum) + 12 * u) := by
+  obtain ⟨s1, o1, e1, i1⟩ := step_first n M hn h8 b0
+  have hu : (0 : K) ≤ u := u_nonneg
+  -- the whole stream: invariant of the final state
+  obtain ⟨s2, outs, p2, e2, i2⟩ := run_from n M (bs ++ [bl]) hb s1 _ [] i1 (by simp) (by simpa using ht)
+  -- the stream without its last bar, then the last call
+  have ht' : ((([] : List K).length + bs.length : Nat) : K) * u ≤ 1 / 8 := by
+    refine le_trans (mul_le_mul_of_nonneg_right ?_ hu) ht
+    exact_mod_cast (by simp : ([] : List K).length + bs.length ≤ (bs ++ [bl]).length)
+  obtain ⟨sm, om, pm, em, im⟩ := run_from n M bs (fun b hb' => hb b (by simp [hb'])) s1 _ [] i1 (by simp) ht'
+  have hbl := hb bl (by simp)
+  have hmem : ∀ a ∈ ([] ++ flowsFrom (tpR b0) bs), |a| ≤ M := by
+    intro a ha
+    have hall : ∀ (p : K) (l : List (Bar (R K))), (∀ b ∈ l, 0 ≤ rawR b ∧ rawR b ≤ M) →
+        ∀ a ∈ flowsFrom p l, |a| ≤ M := by
+      intro p l
+      induction l generalizing p with
+      | nil => intro _ a ha; simp [flowsFrom] at ha
+      | cons x xs ih =>
+        intro hx a ha
+        simp only [flowsFrom, List.mem_cons] at ha
+        rcases ha with rfl | ha
+        · exact abs_flow _ _ _ _ (hx x (by simp)).1 (hx x (by simp)).2
+        · exact ih _ (fun b hb' => hx b (by simp [hb'])) a ha
+    exact hall _ bs (fun b hb' => hb b (by simp [hb'])) a (by simpa using ha)
+  have hul : ((([] ++ flowsFrom (tpR b0) bs).length + 1 : Nat) : K) * u ≤ 1 / 8 := by
+    have : ([] ++ flowsFrom (tpR b0) bs).length + 1 = (bs ++ [bl]).length := by simp [flowsFrom_length]
+    rw [this]; exact ht
+  obtain ⟨sl, y, el, _, hy⟩ := step im hmem bl hbl.1 hbl.2 hul
+  -- both descriptions of the run agree
+  have ha := runOut_append nextBar s1 bs [bl]
+  rw [e2, em] at ha
+  simp only [Option.bind_some, runOut, el, Option.map_some, Option.some.injEq, Prod.mk.injEq] at ha
+  obtain ⟨hs, ho⟩ := ha
+  subst hs
+  -- the totals of the final state
+  have hP := i2.pos
+  have hN := i2.neg
+  simp only [List.nil_append, flowsFrom_length] at hP hN
+  have hfl : flows (b0 :: (bs ++ [bl])) = flowsFrom (tpR b0) (bs ++ [bl]) := rfl
+  rw [hfl] at hD hpos ⊢
+  set SP := (lastN n ((flowsFrom (tpR b0) (bs ++ [bl])).map pp)).sum with hSP
+  set SN := (lastN n ((flowsFrom (tpR b0) (bs ++ [bl])).map np)).sum with hSN
+  have hSP0 : 0 ≤ SP := by
+    apply List.sum_nonneg
+    intro a ha
+    obtain ⟨b, _, rfl⟩ := List.mem_map.mp (mem_lastN _ _ _ ha)
+    exact le_max_right _ _
+  have hSN0 : 0 ≤ SN := by
+    apply List.sum_nonneg
+    intro a ha
+    obtain ⟨b, _, rfl⟩ := List.mem_map.mp (mem_lastN _ _ _ ha)
+    exact le_max_right _ _
+  -- the ratio branch is taken
+  have hP' := abs_le.mp hP
+  have hN' := abs_le.mp hN
+  have hs0 : 0 < s2.total_positive_money_flow.v + s2.total_negative_money_flow.v := by
+    linarith [hP'.1, hN'.1]
+  have hfl0 : ¬ fl (s2.total_positive_money_flow.v + s2.total_negative_money_flow.v) = 0 := by
+    intro h0
+    have := fl_err (s2.total_positive_money_flow.v + s2.total_negative_money_flow.v)
+    rw [h0, zero_sub, abs_neg, abs_of_pos hs0] at this
+    nlinarith
+  refine ⟨s2, o1 :: om, y, ?_, ?_⟩
+  · rw [runOut_cons nextBar _ b0 _ s1 o1 e1, e2, ho]; rfl
+  · rw [hy, out_v _ _ hfl0]
+    have e100 : ((100 : K) / 10 ^ 0) = 100 := by norm_num
+    rw [e100]
+    exact reading_err _ _ SP SN _ hSP0 hSN0 hP hN hD hpos hu64
 
 end TaRs.Round.MFI
